@@ -368,9 +368,17 @@ func c15(p *core.Prog, r *core.Report) {
 				}
 			})
 		}
-		scan(f)
+		scanned := map[*ssa.Function]bool{}
+		for _, g := range append([]*ssa.Function{f}, p.FuncsDeep(f, 2)...) {
+			if g != nil && !scanned[g] && (g == f || g.Name() != "getHost") {
+				scanned[g] = true
+				scan(g)
+			}
+		}
 		for _, af := range f.AnonFuncs {
-			scan(af)
+			if !scanned[af] {
+				scan(af)
+			}
 		}
 		r.Check(keys["host"] && keys["host:port"] && hostGuarded, "C15-R4", fname(f), "eligibility looks up the host:port and, while avoiding hosts, the host", p.Pos(f.Pos()), "prevSelected[hostPort] and prevSelected[getHost(hostPort)] under avoidHost",
 			fmt.Sprintf("the exclusion test does not look up both the peer's host:port and its host (host:port=%v host=%v under avoidHost=%v): peers on an already tried host are not avoided", keys["host:port"], keys["host"], hostGuarded))
